@@ -544,13 +544,15 @@ var c06ScaleUnits = []struct{ unit, sep, pre, post string }{
 	{"\"", "", "", ""}, {"(", "", "    ", ""}, {"account a:b", "\n", "", ""}, {"é", " ", "", ""}, {"@", " ", "    a:b  1 ", ""}, {"=", "", "", ""}, {"    a:b  1 EUR", "\n", "2024-01-01 x\n", ""},
 	{"include x.journal", "\n", "", ""}, {"k:v", ",", "2024-01-01 x ;", ""}, {"1,000.00 EUR", " ", "    a:b  ", ""}, {"[a:b]", " ", "    ", ""}, {"|", " ", "2024-01-01 ", ""},
 	// shapes pointed out by an independent review of the unchanged code
-	{"(", "", "    ", ":a"},                                                             // every "(" looks ahead for the colon of a virtual account
-	{"1", "", "commodity 1,000.00 USD\n2024-01-01 x\n    a:b  ", " USD\n    c:d"},     // one very long number, written with group marks
-	{"account d:%a\n2024-01-01 x\n    u:%a  1 EUR\n    v:%a", "\n", "", ""},          // many declared accounts x many postings to undeclared ones
-	{" P ", "\n", "", ""},                                                               // indented lines that look like directives (folding)
-	{"a :1", ",", "2024-01-01 x ; ", ""},                                                 // comment pieces that are almost tags
-	{"    a:b  1 %a", "\n", "2024-01-01 x\n", ""},                                      // one transaction out of balance in many commodities
+	{"(", "", "    ", ":a"}, // every "(" looks ahead for the colon of a virtual account
+	{"1", "", "commodity 1,000.00 USD\n2024-01-01 x\n    a:b  ", " USD\n    c:d"}, // one very long number, written with group marks
+	{"account d:%a\n2024-01-01 x\n    u:%a  1 EUR\n    v:%a", "\n", "", ""},       // many declared accounts x many postings to undeclared ones
+	{" P ", "\n", "", ""},                                                            // indented lines that look like directives (folding)
+	{"a :1", ",", "2024-01-01 x ; ", ""},                                             // comment pieces that are almost tags
+	{"    a:b  1 %a", "\n", "2024-01-01 x\n", ""},                                    // one transaction out of balance in many commodities
 	{"account acc:%a", "\n", "", "\n2024-01-01 x\n    " + strings.Repeat("q", 4000)}, // many candidates x a long line before the cursor
+	{"{*,*}", "", "include ", ""},                                                    // brace alternatives: every combination is a pattern of its own
+	{"**/", "", "include ", "*.journal"},                                             // any-depth segments
 }
 
 // TestC06Scale: the cost of a unit repeated 4k times must stay within x10 of k times.
